@@ -54,12 +54,12 @@ READER_KEEP = {
 
 # struct-literal fields in reader arms that must be derived from a given payload binding (same-typed swaps compile)
 READER_PROV = [
-    ("Tag::Link", "liwe::model::document::Target", "url", "dest_url"),
-    ("Tag::Image", "liwe::model::document::Target", "url", "dest_url"),
-    ("Tag::Link", "liwe::model::document::Link", "link_type", "link_type"),
-    ("Tag::Heading", "liwe::model::document::Header", "level", "level"),
-    ("Tag::Table", "liwe::model::document::Table", "alignment", "alignment"),
-    ("Tag::CodeBlock", "liwe::model::document::CodeBlock", "lang", "code_block_kind"),
+    ("Tag::Link", "liwe::model::document::Target", "url", "Tag::Link.dest_url"),
+    ("Tag::Image", "liwe::model::document::Target", "url", "Tag::Image.dest_url"),
+    ("Tag::Link", "liwe::model::document::Link", "link_type", "Tag::Link.link_type"),
+    ("Tag::Heading", "liwe::model::document::Header", "level", "Tag::Heading.level"),
+    ("Tag::Table", "liwe::model::document::Table", "alignment", "Tag::Table.0"),
+    ("Tag::CodeBlock", "liwe::model::document::CodeBlock", "lang", "Tag::CodeBlock.0"),
 ]
 
 # names of payload-struct fields that are positions / bookkeeping, not note content
@@ -311,17 +311,28 @@ def rule_r1(facts, rep, rid="C01-R1"):
                     rep.violation(rid, key, "the %s arm no longer builds a %s" % (vv, fb.last_seg(st)), "%s:%s" % (f.file, arm["body"].get("ln")))
                     continue
                 fe = [fl["e"] for fl in lits[0]["fields"] if fl["name"] == field]
-                srcs = set(x.get("name") for x in fb.walk(fe[0]) if x.get("k") == "path" and x.get("res") == "local") if fe else set()
-                # follow one level of local definitions
-                pv = c.mentions(fe[0]) if fe else set()
-                names = srcs | set(a[1] for a in pv if a[0] in ("local", "param"))
-                bound = set(n_ for n_, _i in fb.pat_bindings(arm["pat"]))
-                used_payload = names & bound
-                if src in used_payload and used_payload == {src}:
-                    rep.ok(rid, key, "%s.%s is derived from `%s`" % (fb.last_seg(st), field, src), loc(f, lits[0]))
+                slot_of = {lid: pos for lid, pos in q.pat_positions(arm["pat"])}
+                want_ids = set(lid for lid, pos in slot_of.items() if pos == src)
+                used = set()
+                if fe:
+                    seen_l = set()
+                    stack = [fe[0]]
+                    while stack:
+                        ex = stack.pop()
+                        for y in fb.walk(ex):
+                            if y.get("k") == "path" and y.get("res") == "local":
+                                if y["id"] in slot_of:
+                                    used.add(y["id"])
+                                elif y["id"] not in seen_l:
+                                    seen_l.add(y["id"])
+                                    b_ = c.binds.get(y["id"])
+                                    if b_ and b_[0] == "expr":
+                                        stack.append(b_[1])
+                if want_ids and used == want_ids:
+                    rep.ok(rid, key, "%s.%s is derived from the tag's %s" % (fb.last_seg(st), field, src), loc(f, lits[0]))
                 else:
                     rep.violation(rid, key, "%s.%s is built from %s instead of the tag's `%s`: a same-typed payload was swapped or a constant substituted" % (
-                        fb.last_seg(st), field, sorted(used_payload) or "no payload binding", src), loc(f, lits[0]))
+                        fb.last_seg(st), field, sorted(slot_of[u] for u in used) or "no payload binding", src), loc(f, lits[0]))
 
     # start/end pairing
     n_pairs = 0
@@ -402,8 +413,8 @@ def rule_r1b(facts, rep, rid="C01-R1b"):
     holders = {"Plain", "Para", "Header", "BlockQuote", "OrderedList", "BulletList", "Table"}
     pid = None
     for p in api.params:
-        for name, lid in fb.pat_bindings(p["pat"]):
-            if name == "inline":
+        if "DocumentInline" in (p.get("ty") or ""):
+            for name, lid in fb.pat_bindings(p["pat"]):
                 pid = lid
     for m in A.matches_on(api, "DocumentBlock")[:1]:
         for vs, arm in A.arms_of(m):
@@ -941,9 +952,9 @@ def rule_r5(facts, rep, rid="C01-R5"):
     allowed = 0
     for i, r in enumerate(rets):
         iff = [p for p in c.parents(r) if p.get("k") == "if"]
-        cond = fb.show(iff[0]["c"]) if iff else "?"
+        cond = fb.show_canon(pb, iff[0]["c"]) if iff else "?"
         key = "%s|early-return:%d" % (pb.def_, i)
-        if cond == "range.is_empty()" or ("first_header_level" in cond and "is_none()" in cond):
+        if cond == "P1.is_empty()" or ("first_header_level" in cond and "is_none()" in cond):
             allowed += 1
             rep.ok(rid, key, "audited guard `%s`" % cond, loc(pb, r), nontrivial=False)
         else:
@@ -963,23 +974,23 @@ def rule_r5(facts, rep, rid="C01-R5"):
     c2 = ctx(ps)
     sb = [x for x in fb.walk(ps.body) if x.get("k") == "mcall" and x["name"] == "section_block"]
     key = ps.def_ + "|handles-first-block"
-    if sb and fb.show(sb[0]["args"][0]).replace(" ", "") in ("&blocks[range.start]", "&blocks[(range.start)]"):
+    if sb and fb.show_canon(ps, sb[0]["args"][0]).replace(" ", "") in ("&P2[P1.start]", "&P2[(P1.start)]"):
         rep.ok(rid, key, "section_block(&blocks[range.start])", loc(ps, sb[0]))
     else:
         rep.violation(rid, key, "process_section does not pass blocks[range.start] to section_block (%s)" % (fb.show(sb[0]["args"][0]) if sb else "no call"), ps.loc)
     rc = [x for x in fb.walk(ps.body) if x.get("k") == "mcall" and x["name"] == "process_blocks"]
     key = ps.def_ + "|recurses-on-rest"
-    shape = _range_shape(rc[0]["args"][0]) if rc else ""
-    if rc and shape == "(range.start+1)..range.end":
+    shape = _range_shape(rc[0]["args"][0], ps) if rc else ""
+    if rc and shape == "(P1.start+1)..P1.end" and fb.show_canon(ps, rc[0]["args"][1]) == "P2":
         rep.ok(rid, key, "process_blocks(range.start + 1..range.end)", loc(ps, rc[0]))
     else:
         rep.violation(rid, key, "process_section does not recurse on exactly range.start+1..range.end (got `%s`): blocks of the section are skipped or visited twice" % shape, ps.loc)
     rets = [x for x in fb.walk(ps.body, into_closures=False) if x.get("k") == "ret"]
     for i, r in enumerate(rets):
         iff = [p for p in c2.parents(r) if p.get("k") == "if"]
-        cond = fb.show(iff[0]["c"]) if iff else "?"
+        cond = fb.show_canon(ps, iff[0]["c"]) if iff else "?"
         key = "%s|early-return:%d" % (ps.def_, i)
-        if cond == "range.is_empty()":
+        if cond == "P1.is_empty()":
             rep.ok(rid, key, "audited guard", loc(ps, r), nontrivial=False)
         else:
             rep.violation(rid, key, "new early return in process_section under `%s`" % cond[:80], loc(ps, r))
@@ -992,14 +1003,15 @@ def rule_r5(facts, rep, rid="C01-R5"):
             if x.get("k") == "mcall" and x["name"] == "process_section":
                 n_items += 1
                 i = n_items
-                shape = _range_shape(x["args"][0])
+                shape = _range_shape(x["args"][0], f)
+                same_item = len(x["args"]) > 1 and fb.show_canon(f, x["args"][1]) == "b0"
                 key = "%s|item-range|%d" % (f.def_, sum(1 for y in fb.walk(f.body) if y.get("k") == "mcall" and y["name"] == "process_section" and (y.get("s") or [0])[0] < (x.get("s") or [0])[0]))
                 par = cc.parents(x)
                 iters = [p for p in par if p.get("k") == "match" and p.get("src") == "ForLoopDesugar"]
                 lossy = []
                 for it in iters[:1]:
                     lossy = [y["name"] for y in fb.walk(it["e"]) if y.get("k") == "mcall" and y["name"] in LOSSY]
-                if shape == "0..b.len()" and iters and not lossy:
+                if shape == "0..b0.len()" and same_item and iters and not lossy:
                     rep.ok(rid, key, "for b in items.iter() { process_section(0..b.len(), b) }", loc(f, x))
                 else:
                     rep.violation(rid, key, "list items are not all processed over their full block range (range `%s`, iterator adapters %s)" % (shape, lossy), loc(f, x))
@@ -1007,16 +1019,16 @@ def rule_r5(facts, rep, rid="C01-R5"):
     f = facts.fn("SectionsBuilder::new")
     key = f.def_ + "|whole-range"
     calls = [x for x in fb.walk(f.body) if x.get("k") == "mcall" and x["name"] == "process_blocks"]
-    shape = _range_shape(calls[0]["args"][0]) if calls else ""
-    if shape == "0..content.len()":
+    shape = _range_shape(calls[0]["args"][0], f) if calls else ""
+    if shape == "0..P1.len()" and fb.show_canon(f, calls[0]["args"][1]) == "P1":
         rep.ok(rid, key, "process_blocks(0..content.len())", f.loc)
     else:
         rep.violation(rid, key, "SectionsBuilder::new does not process the whole block list (`%s`)" % shape, f.loc)
 
 
-def _range_shape(e):
-    """`a..b` rendered as `a..b` whatever the desugaring looks like."""
-    t = fb.show(e).replace(" ", "")
+def _range_shape(e, fn=None):
+    """`a..b` rendered as `a..b` whatever the desugaring looks like (locals rendered rename-independently when fn is given)."""
+    t = (fb.show_canon(fn, e) if fn is not None else fb.show(e)).replace(" ", "")
     mm = re.match(r"^(?:[A-Za-z_:]*::)?Range\{start:(.*),end:(.*)\}$", t)
     if mm:
         return "%s..%s" % (mm.group(1), mm.group(2))
@@ -1074,7 +1086,7 @@ def rule_r6(facts, rep, rid="C01-R6"):
         rep.violation(rid, key, "Graph::to_markdown does not print the stored front matter in front of the body", tm.loc)
     key = tm.def_ + "|body-from-own-key"
     body_calls = [x for x in fb.walk(tm.body) if x.get("k") == "mcall" and x["name"] == "collect"]
-    if body_calls and fb.show(body_calls[0]["args"][0]) == "key":
+    if body_calls and fb.show_canon(tm, body_calls[0]["args"][0]) == "P1":
         rep.ok(rid, key, "collect(key)", tm.loc)
     else:
         rep.violation(rid, key, "to_markdown(key) does not render collect(key)", tm.loc)
